@@ -48,3 +48,6 @@ Definition comp_eqb (a b : comp) : bool :=
    VScal : a non-iterable scalar object;  VSeq : list / tuple / 1-d numpy array (what list(value) yields);
    VStr  : a python str (iterating it yields its characters: list("ab") = ['a','b']). *)
 Inductive value := VScal (c : comp) | VSeq (l : list comp) | VStr (s : list Z).
+
+(* np.squeeze on a shape: every axis of length 1 is dropped *)
+Definition squeeze (shape : list Z) : list Z := filter (fun d => negb (d =? 1)) shape.
